@@ -817,9 +817,9 @@ def batch_reference(c, inp, res):
 
 
 # tolerances: in units of the reference standard deviation of the same quantity
-TOL_X = 2e-5          # |estimate difference| / sd
-TOL_SD = 2e-5         # relative difference of standard deviations
-TOL_NU = 2e-5         # normalised innovation (absolute; unit variance)
+TOL_X = 1e-6          # |estimate difference| / sd
+TOL_SD = 1e-6         # relative difference of standard deviations
+TOL_NU = 1e-6         # normalised innovation (absolute; unit variance)
 TOL_DISC = 1e-6       # Phi, Qd of the code (Van Loan) against exp(F dt) and the quadrature of the definition
 TOL_ASM = 1e-9        # own F / Q / P0 against the matrices the code built (same formulas, relative to max entry)
 
